@@ -88,23 +88,25 @@ type Env struct {
 	Os      []Obj
 	Ps      []*Obj
 
-	Id    func(int) int
-	Neg   func(int) int
-	Add   func(int, int) int
-	IsPos func(int) bool
-	Cat   func(string, string) string
-	Half  func(float64) float64
-	Sum   func([]int) int
-	Len3  func([]interface{}) int
-	AnyId func(interface{}) interface{}
-	Boom  func(int) int
-	NilFn func(int) int
-	I8Id  func(int8) int8
-	Var   func(...interface{}) interface{}
-	Pair  func(interface{}, interface{}) interface{}
-	AddF  func(float64, float64) float64
-	Tup   func(...interface{}) interface{}
-	VarI  func(...interface{}) interface{}
+	Id     func(int) int
+	Neg    func(int) int
+	Add    func(int, int) int
+	IsPos  func(int) bool
+	Cat    func(string, string) string
+	Half   func(float64) float64
+	Sum    func([]int) int
+	Len3   func([]interface{}) int
+	AnyId  func(interface{}) interface{}
+	Boom   func(int) int
+	NilFn  func(int) int
+	I8Id   func(int8) int8
+	Var    func(...interface{}) interface{}
+	Pair   func(interface{}, interface{}) interface{}
+	AddF   func(float64, float64) float64
+	AddAny func(interface{}, interface{}) interface{}
+	Rev    func([]int) []int
+	Tup    func(...interface{}) interface{}
+	VarI   func(...interface{}) interface{}
 
 	lg *Log
 }
@@ -145,6 +147,15 @@ func NewEnv(lg *Log) *Env {
 	e.I8Id = func(x int8) int8 { lg.add("I8Id", x); return x }
 	e.Var = func(xs ...interface{}) interface{} { lg.add("Var", xs...); return len(xs) }
 	e.AddF = func(a, b float64) float64 { lg.add("AddF", a, b); return a + b }
+	e.AddAny = func(a, b interface{}) interface{} { lg.add("AddAny", a, b); return []interface{}{a, b} }
+	// Rev reverses its argument IN PLACE (a callee may write to a slice it is given)
+	e.Rev = func(xs []int) []int {
+		lg.add("Rev", append([]int{}, xs...))
+		for i, j := 0, len(xs)-1; i < j; i, j = i+1, j-1 {
+			xs[i], xs[j] = xs[j], xs[i]
+		}
+		return xs
+	}
 	e.Pair = func(a, b interface{}) interface{} { lg.add("Pair", a, b); return []interface{}{a, b} }
 	// Tup returns its variadic slice itself (a callee may retain its arguments)
 	e.Tup = func(xs ...interface{}) interface{} { lg.add("Tup", xs...); return xs }
